@@ -637,7 +637,7 @@ fn errors_of(r: &Response) -> String {
 }
 
 /// Run the standard query; (a) self-consistency, (b) equality with `expected` and, if given, with the SDL.
-fn introspect(exec: Exec, expected: &Sch, sdl: Option<&str>, ignore_in_sdl: &[&str]) -> Result<(Introspected, Vec<Dev>, String), String> {
+fn introspect(exec: Exec, expected: &Sch, sdl: Option<&str>) -> Result<(Introspected, Vec<Dev>, String), String> {
     let resp = exec(Request::new(INTROSPECTION_QUERY));
     if !resp.errors.is_empty() {
         return Err(format!("the standard introspection query is answered with errors: {}", errors_of(&resp)));
@@ -649,12 +649,7 @@ fn introspect(exec: Exec, expected: &Sch, sdl: Option<&str>, ignore_in_sdl: &[&s
     devs.extend(sch_diff(expected, &intro.sch).into_iter().map(Dev::VsSource));
     if let Some(sdl) = sdl {
         match from_sdl_text(sdl) {
-            Ok(mut s) => {
-                for n in ignore_in_sdl {
-                    s.types.shift_remove(*n);
-                }
-                devs.extend(sch_diff(&s, &intro.sch).into_iter().map(Dev::VsSdl));
-            }
+            Ok(s) => devs.extend(sch_diff(&s, &intro.sch).into_iter().map(Dev::VsSdl)),
             Err(e) => devs.push(Dev::Other(format!("exported SDL: {}", e))),
         }
     }
@@ -675,7 +670,6 @@ fn unmasked(devs: &[Dev], expected: &Sch, qs: &[Quirk], open: &[&str]) -> usize 
 
 #[derive(Clone)]
 struct DynCfg {
-    inheritance: bool,
     open: Vec<&'static str>,
     masked: bool,
     tcfg: TypedCfg,
@@ -702,7 +696,7 @@ fn prune_unreferenced(sch: &mut Sch) {
 }
 
 fn dyn_case(s: &mut dyn Src, cfg: &DynCfg) -> Case {
-    let mut sch = gen_sch(s, &SchCfg { subscription: true, interface_inheritance: cfg.inheritance, ..SchCfg::default() });
+    let mut sch = gen_sch(s, &SchCfg { subscription: true, ..SchCfg::default() });
     prune_unreferenced(&mut sch);
     let world = gen_world(&sch, s, &WorldCfg { null_composite_items: false, ..WorldCfg::default() });
     let rendered = format!("dynamic schema: {}", show_sch(&sch));
@@ -714,7 +708,7 @@ fn dyn_case(s: &mut dyn Src, cfg: &DynCfg) -> Case {
     let exec = |r: Request| vcore::det::block_on(schema.execute(r));
     let inherits = sch.types.values().any(|t| t.kind == Kind::Interface && !t.interfaces.is_empty());
     let qs = quirks(true);
-    let (intro, mut devs, _) = match introspect(&exec, &sch, Some(&schema.sdl()), &[]) {
+    let (intro, mut devs, _) = match introspect(&exec, &sch, Some(&schema.sdl())) {
         Ok(x) => x,
         Err(e) => return Case::fail(rendered, e),
     };
@@ -759,7 +753,7 @@ struct StaticCase<'a> {
 
 /// (a), (b), (d) for one static schema under one context
 fn static_devs(c: &StaticCase) -> Result<(Introspected, Vec<Dev>), String> {
-    let (intro, mut devs, raw) = introspect(c.exec, &c.expected, c.sdl.as_deref(), &[])?;
+    let (intro, mut devs, raw) = introspect(c.exec, &c.expected, c.sdl.as_deref())?;
     for h in &c.hidden {
         if raw.contains(h.as_str()) {
             devs.push(Dev::Other(format!("hidden element {} occurs in the introspection response", h)));
@@ -959,20 +953,20 @@ pub fn run(ctx: &mut Ctx) {
 
     // ---- dynamic schemas
     let n_dyn = ctx.tier.pick(6_000u32, 200_000);
-    let main = DynCfg { inheritance: !ctx.open("C18-F2"), open: dyn_open.clone(), masked: true, tcfg: tcfg.clone(), docs: 3 };
+    // the deviations the open findings predict are tolerated (masked) in the main stream …
+    let main = DynCfg { open: dyn_open.clone(), masked: true, tcfg: tcfg.clone(), docs: 3 };
     for f in &dyn_open {
         ctx.excluded(f);
     }
     ctx.stream("dynamic", n_dyn, 700, |s| dyn_case(s, &main));
     if !dyn_open.is_empty() {
-        let probe = DynCfg { inheritance: true, open: dyn_open.clone(), masked: false, tcfg: tcfg.clone(), docs: 1 };
+        // … and attributed, deviation by deviation, in the probe stream
+        let probe = DynCfg { open: dyn_open.clone(), masked: false, tcfg: tcfg.clone(), docs: 1 };
         ctx.stream("probe-dynamic-interfaces", n_dyn / 20, 700, |s| dyn_case(s, &probe));
     }
     ctx.floor("documents-executed", 1000);
     ctx.floor("hidden-elements", 1500);
     ctx.floor("hidden-types", 1500);
     ctx.floor("type-condition", 500);
-    if main.inheritance {
-        ctx.floor("interface-inheritance", 200);
-    }
+    ctx.floor("interface-inheritance", 300);
 }
